@@ -470,6 +470,10 @@ Proof.
   all: try (cbn [pre_res]; rewrite ?app_comm_cons, rev_app_distr; reflexivity).
   all: try (rewrite ?app_comm_cons; apply IH).
 Qed.
+Lemma cobj_acc_nil : forall o f s line nid stop start prev active t,
+  cobj o f s line nid stop start prev active t
+  = pre_res (rev t) (cobj o f s line nid stop start prev active []).
+Proof. intros. exact (cobj_acc_app o f s line nid stop start prev active [] t). Qed.
 
 (* ---------- the active definition is only ever touched by [attach], and then flushed *)
 Definition head_res (g:obj -> obj) (r:res (list obj * str * nat * nat)) : res (list obj * str * nat * nat) :=
@@ -626,5 +630,719 @@ Proof.
   assert (Hdot : prefixb ["."] (c :: w) = false).
   { cbn [prefixb]. rewrite Ascii.eqb_sym. apply Ascii.eqb_neq in Hd. rewrite Hd. reflexivity. }
   rewrite Hdot. cbn [negb].
-  Show.
-Abort.
+  change (match active with Some d => d :: acc | None => acc end) with (flushed active acc).
+  set (G := dis_depth (length (splitdot (c :: w)) - 1)).
+  set (n := length (flushed active acc)).
+  repeat nth_step.
+  all: try reflexivity.
+  - (* scope *)
+    match goal with |- cobj _ _ ?a ?b ?c ?d ?e ?g None (adopt ?X :: _) = nth_res _ _ (cobj _ _ _ _ _ _ _ _ _ (adopt ?Y :: _)) =>
+      rewrite (cobj_acc_nil o f a b c d e g None (adopt X :: flushed active acc)),
+              (cobj_acc_nil o f a b c d e g None (adopt Y :: flushed active acc));
+      change X with (set_dis Y) end.
+    rewrite adopt_dis. cbn [rev ohdr oname]. fold G.
+    unfold n. rewrite <- (rev_length (flushed active acc)). rewrite nth_pre_last. reflexivity.
+  - (* definition *)
+    match goal with |- cobj _ _ ?a ?b ?c ?d ?e ?g (Some (adopt ?X)) _ = nth_res _ _ (cobj _ _ _ _ _ _ _ _ (Some (adopt ?Y)) _) =>
+      rewrite (cobj_acc_nil o f a b c d e g (Some (adopt X)) (flushed active acc)),
+              (cobj_acc_nil o f a b c d e g (Some (adopt Y)) (flushed active acc));
+      change X with (set_dis Y) end.
+    rewrite adopt_dis. cbn [ohdr oname]. fold G.
+    rewrite (cobj_active_map o G (dis_depth_attach _)).
+    unfold n. rewrite <- (rev_length (flushed active acc)). rewrite nth_pre_head. reflexivity.
+Qed.
+
+(* document level *)
+Definition on_first (g:obj -> obj) (r:res (list obj)) : res (list obj) :=
+  match r with Ok l => Ok (map_at 0 g l) | r => r end.
+
+Theorem parse_bang : forall o c s,
+  wstart s0 c = true -> c <> "!" -> c <> "." ->
+  parse o ("!" :: c :: s) = on_first (dis_depth (name_depth (c :: s) 1)) (parse o (c :: s)).
+Proof.
+  intros o c s Hs Hb Hd. unfold parse.
+  rewrite (cobj_bang o _ c s 1 1 false None 0 None [] Hs Hb Hd).
+  rewrite (cobj_fuel_enough o (S (S (length ("!" :: c :: s)))) (S (S (length (c :: s)))) (c :: s))
+    by (cbn [length]; lia).
+  destruct (cobj o (S (S (length (c :: s)))) (c :: s) 1 1 false None 0 None []) as [[[[objs a] b] d]| |];
+    reflexivity.
+Qed.
+
+Lemma is_start_props : forall c, is_start c = true -> wstart s0 c = true /\ c <> "!" /\ c <> ".".
+Proof.
+  intros c. destruct c as [[] [] [] [] [] [] [] []]; vm_compute; intros H; try discriminate H;
+    (split; [reflexivity|split; discriminate]).
+Qed.
+Lemma is_cont_wchar : forall c, is_cont c = true -> wchar s0 c = true.
+Proof.
+  intros c. destruct c as [[] [] [] [] [] [] [] []]; vm_compute; intros H; try discriminate H; reflexivity.
+Qed.
+Lemma forallb_impl : forall {A} (p q:A -> bool) l, (forall x, p x = true -> q x = true) ->
+  forallb p l = true -> forallb q l = true.
+Proof.
+  intros A p q l Hpq; induction l as [|x l IH]; [reflexivity|]. cbn [forallb]. intros H.
+  apply andb_prop in H as [H1 H2]. rewrite (Hpq _ H1), (IH H2). reflexivity.
+Qed.
+
+(* an identifier followed by a blank, "=", "{", "}" or the end of input is read as one word *)
+Lemma nw_s0_ident : forall name rest line, is_ident name = true -> delim s0 rest = true ->
+  exists c w, name = c :: w /\ wstart s0 c = true /\ c <> "!" /\ c <> "."
+              /\ nw s0 false (name ++ rest) line = TWord (mkword name QN line) rest line.
+Proof.
+  intros name rest line Hi Hd. unfold is_ident in Hi. apply andb_prop in Hi as [Hi _].
+  destruct name as [|c w]; [discriminate|]. cbn [is_ident1] in Hi. apply andb_prop in Hi as [Hc Hw].
+  destruct (is_start_props c Hc) as (H1 & H2 & H3).
+  exists c, w. repeat split; try assumption.
+  cbn [app]. apply nw_s0_word; [exact H1| |exact Hd].
+  eapply forallb_impl; [|exact Hw]. exact is_cont_wchar.
+Qed.
+
+(* T5, the named form: for an identifier [name] (dotted or not) in front of a definition or a
+   scope, "!name..." parses exactly like "name..." except that the object the name denotes is
+   disabled; if "name..." fails to parse, "!name..." fails with the same error. *)
+Theorem bang_object : forall o name rest,
+  is_ident name = true -> delim s0 rest = true ->
+  parse o ("!" :: name ++ rest)
+  = on_first (dis_depth (length (splitdot name) - 1)) (parse o (name ++ rest)).
+Proof.
+  intros o name rest Hi Hd.
+  destruct (nw_s0_ident name rest 1 Hi Hd) as (c & w & -> & Hs & Hb & Hdot & Hn).
+  cbn [app]. rewrite (parse_bang o c (w ++ rest) Hs Hb Hdot).
+  unfold name_depth. cbn [app] in Hn. rewrite Hn. reflexivity.
+Qed.
+
+(* for a name without dots the object itself carries the flag *)
+Corollary bang_simple : forall o name rest,
+  is_ident name = true -> mem "." name = false -> delim s0 rest = true ->
+  parse o ("!" :: name ++ rest) = on_first set_dis (parse o (name ++ rest)).
+Proof.
+  intros o name rest Hi Hm Hd. rewrite (bang_object o name rest Hi Hd).
+  replace (length (splitdot name) - 1) with 0; [reflexivity|].
+  clear Hi. induction name as [|c w IH]; [reflexivity|].
+  cbn [mem] in Hm. apply orb_false_iff in Hm as [H1 H2].
+  cbn [splitdot]. rewrite Ascii.eqb_sym, H1.
+  specialize (IH H2). destruct (splitdot w) as [|h t]; [reflexivity|]. cbn [length] in *. lia.
+Qed.
+
+(* T5 for attributes: "!.attr = words" after a definition reads the words and drops them - the
+   active definition is untouched (not even a conversion error can arise) and parsing continues
+   at the same place, in the same state, as after ".attr = words". *)
+Theorem bang_attr : forall o f an s line nid stop start prev ad acc r5 l5 eqw ws r6 l6 rest,
+  let lead' := mkword ("." :: an) QN line in
+  forallb (wchar s0) an = true -> delim s0 rest = true -> s = an ++ rest ->
+  mems an def_attr_names = true ->
+  pop_unq s0 rest line = Ok (eqw, r5, l5) -> expect_eq eqw = Ok tt ->
+  caw (S (length r5)) r5 l5 false lead' [] lead' = Ok (ws, r6, l6) ->
+  cobj o (S f) ("!" :: "." :: s) line nid stop start prev (Some ad) acc
+    = cobj o f r6 l6 nid stop start line (Some ad) acc
+  /\ cobj o (S f) ("." :: s) line nid stop start prev (Some ad) acc
+    = (do av <- assign_def_attr o an ws ;
+       cobj o f r6 l6 nid stop start line (Some (attach an av ad)) acc).
+Proof.
+  intros o f an s line nid stop start prev ad acc r5 l5 eqw ws r6 l6 rest lead' Hw Hd -> Hm Hp He Hc.
+  assert (Hpop : pop s0 rest line = Ok (eqw, r5, l5) /\ isq eqw = false).
+  { unfold pop_unq in Hp. destruct (pop s0 rest line) as [[[w0 r0] l0]| |]; try discriminate.
+    destruct (isq w0) eqn:Eq; [discriminate|]. inversion Hp; subst. split; [reflexivity|exact Eq]. }
+  destruct Hpop as [Hpop Hq].
+  assert (Heq : eqs (wv eqw) ["="] = true).
+  { unfold expect_eq in He. destruct (eqs (wv eqw) ["="]); [reflexivity|discriminate]. }
+  assert (Hnot : negb (isq eqw) && (eqs (wv eqw) ["{"] || prefixb ["."] (wv eqw) || prefixb ["!"; "."] (wv eqw)) = false).
+  { destruct (wv eqw) as [|e1 [|e2 et]]; cbn [eqs] in Heq; rewrite ?andb_false_r in Heq; try discriminate Heq.
+    rewrite andb_true_r in Heq. apply Ascii.eqb_eq in Heq. subst e1. rewrite Hq. reflexivity. }
+  split.
+  - cbn [cobj].
+    rewrite (nw_bang "." (an ++ rest) line eq_refl), (nw_s0_word "." an rest line eq_refl Hw Hd).
+    cbn [bang_tok wv wq wline isq]. cbn [eqs intro s_ String.list_ascii_of_string Ascii.eqb Bool.eqb andb strip_bang].
+    rewrite !andb_false_r. rewrite Hpop. cbn [bind]. rewrite Hnot.
+    cbn [prefixb Ascii.eqb Bool.eqb andb negb drop]. rewrite Hm. cbn [negb].
+    rewrite Hp. cbn [bind]. rewrite He. cbn [bind]. fold lead'. rewrite Hc. reflexivity.
+  - cbn [cobj].
+    rewrite (nw_s0_word "." an rest line eq_refl Hw Hd).
+    cbn [wv wq wline isq]. cbn [eqs intro s_ String.list_ascii_of_string Ascii.eqb Bool.eqb andb strip_bang].
+    rewrite !andb_false_r. rewrite Hpop. cbn [bind]. rewrite Hnot.
+    cbn [prefixb Ascii.eqb Bool.eqb andb negb drop]. rewrite Hm. cbn [negb].
+    rewrite Hp. cbn [bind]. rewrite He. cbn [bind]. fold lead'. rewrite Hc. cbn [bind].
+    destruct (assign_def_attr o an ws); reflexivity.
+Qed.
+
+(* ====================================================================================== *)
+(* 4. T4: newline versus semicolon as the terminator of a value (one-word value)             *)
+(* ====================================================================================== *)
+
+(* a word that [caw] takes as part of the value: quoted, or none of { } ; # \ *)
+Definition val_word (w:word) : bool :=
+  isq w || negb (is1 w "{" || is1 w "}" || is1 w ";" || is1 w "#" || is1 w bs).
+(* what follows the newline starts a new construct: end of input, or an unquoted word other than
+   ";" and "#" (a quoted word on the next line would continue the value; see the examples) *)
+Definition next_starts_object (rest:str) (line:nat) : bool :=
+  match nw s1 false rest line with
+  | TEnd => true
+  | TWord w2 _ _ => negb (isq w2) && negb (is1 w2 ";") && negb (is1 w2 "#")
+  | TErrQuote _ => false
+  end.
+
+Lemma nw_end_blank : forall σ s line, comment σ = [] -> nw σ false s line = TEnd -> forallb isspace s = true.
+Proof.
+  intros σ s; induction s as [|c s IH]; intros line Hc H; [reflexivity|].
+  cbn [nw] in H. cbn [forallb]. destruct (isspace c) eqn:Es; [cbn [andb]; eapply IH; eassumption|].
+  rewrite Hc in H. cbn [mem andb] in H.
+  destruct (Ascii.eqb c dq || Ascii.eqb c sq).
+  - assert (Hq : forall tr body l, quoted_word tr c body l <> TEnd).
+    { intros tr body l. unfold quoted_word. destruct (scan tr c body l) as [[[v r] l']|]; discriminate. }
+    destruct s as [|q1 [|q2 s']]; try (exfalso; eapply Hq; exact H).
+    destruct (Ascii.eqb q1 c && Ascii.eqb q2 c); exfalso; eapply Hq; exact H.
+  - destruct (negb (mem c (single σ)) && (contig_any σ || mem c (contig σ))); [|discriminate].
+    destruct (take σ s); discriminate.
+Qed.
+
+Lemma nw_s1_semicolon : forall rest line,
+  nw s1 false (";" :: rest) line = TWord (mkword [";"] QN line) rest line.
+Proof. reflexivity. Qed.
+
+Theorem caw_semicolon_newline_single : forall f v w1 rest line last acc lead,
+  (forall t, delim s1 t = true -> nw s1 false (v ++ t) line = TWord w1 t line) ->
+  val_word w1 = true ->
+  isq w1 || weq last [bs] || (wline w1 =? wline last)%nat = true ->
+  wline w1 = line ->
+  next_starts_object rest (S line) = true ->
+  exists p,
+    caw (S (S f)) (v ++ ";" :: rest) line false last acc lead = Ok (rev (w1 :: acc), rest, line)
+    /\ caw (S (S f)) (v ++ nl :: rest) line false last acc lead = Ok (rev (w1 :: acc), p, line)
+    /\ nw s0 false p line = nw s0 false rest (S line).
+Proof.
+  intros f v w1 rest line last acc lead Hv Hval Hacc Hl Hnext.
+  assert (Hspecial : negb (isq w1) && (is1 w1 "{" || is1 w1 "}" || is1 w1 ";" || is1 w1 "#") = false).
+  { unfold val_word in Hval. destruct (isq w1); [reflexivity|]. cbn [orb negb andb] in *.
+    apply negb_true_iff in Hval. apply orb_false_iff in Hval as [Hval _]. exact Hval. }
+  assert (Hnb : weq w1 [bs] = false).
+  { unfold val_word in Hval. unfold weq. destruct (isq w1); [reflexivity|]. cbn [orb negb andb] in *.
+    apply negb_true_iff in Hval. apply orb_false_iff in Hval as [_ Hval]. exact Hval. }
+  assert (Hstep : forall t, delim s1 t = true ->
+            caw (S (S f)) (v ++ t) line false last acc lead = caw (S f) t line false w1 (w1 :: acc) lead).
+  { intros t Ht. cbn [caw]. rewrite (Hv t Ht). cbn [negb andb]. rewrite Hspecial.
+    destruct (isq w1 || weq last [bs]) eqn:E1; [reflexivity|].
+    cbn [orb] in Hacc. rewrite Hacc. cbn [negb].
+    assert (Hb : is1 w1 bs = false).
+    { apply orb_false_iff in E1 as [E1 _]. unfold weq in Hnb. rewrite E1 in Hnb. exact Hnb. }
+    rewrite Hb. reflexivity. }
+  assert (Hne : rev (w1 :: acc) = rev acc ++ [w1]) by reflexivity.
+  assert (Hfin : forall (s':str) (l':nat),
+            match w1 :: acc with [] => E "MissingValue" (str_of_word lead) (wline lead)
+                               | _ => Ok (rev (w1 :: acc), s', l') end = Ok (rev (w1 :: acc), s', l')) by reflexivity.
+  unfold next_starts_object in Hnext.
+  destruct (nw s1 false rest (S line)) as [|w2 r2 l2|l2] eqn:En; [| |discriminate].
+  - (* nothing but blanks follows *)
+    exists []. split; [|split].
+    + rewrite (Hstep (";" :: rest) eq_refl). cbn [caw]. rewrite nw_s1_semicolon. reflexivity.
+    + rewrite (Hstep (nl :: rest) eq_refl). cbn [caw].
+      change (nw s1 false (nl :: rest) line) with (nw s1 false rest (S line)). rewrite En. reflexivity.
+    + pose proof (nw_end_blank s1 rest (S line) eq_refl En) as Hb.
+      rewrite <- (app_nil_r rest). rewrite (nw_skip_blanks s0 rest [] (S line) Hb). reflexivity.
+  - exists (nl :: rest). split; [|split].
+    + rewrite (Hstep (";" :: rest) eq_refl). cbn [caw]. rewrite nw_s1_semicolon. reflexivity.
+    + rewrite (Hstep (nl :: rest) eq_refl). cbn [caw].
+      change (nw s1 false (nl :: rest) line) with (nw s1 false rest (S line)). rewrite En.
+      apply andb_prop in Hnext as [Hnext H3]. apply andb_prop in Hnext as [H1 H2].
+      apply negb_true_iff in H1, H2, H3. rewrite H1, H2, H3. cbn [negb andb orb]. rewrite Hnb.
+      destruct (is1 w2 "{" || is1 w2 "}"); cbn [orb]; [reflexivity|].
+      destruct (nw_lines _ _ _ _ _ _ _ En) as (pre & body & _ & Hw2 & _).
+      assert (Hd : (wline w2 =? wline w1)%nat = false) by (apply Nat.eqb_neq; lia).
+      rewrite Hd. reflexivity.
+    + reflexivity.
+Qed.
+
+(* ====================================================================================== *)
+(* 6. Line shift: starting the readers k lines further down shifts every line by k and      *)
+(*    changes nothing else (needed for layout changes that add or remove newlines)          *)
+(* ====================================================================================== *)
+
+Definition shw (k:nat) (w:word) : word := mkword (wv w) (wq w) (wline w + k).
+Definition sht (k:nat) (t:tokres) : tokres :=
+  match t with TEnd => TEnd | TWord w r l => TWord (shw k w) r (l + k) | TErrQuote l => TErrQuote (l + k) end.
+Definition shs (k:nat) (r:sres) : sres :=
+  match r with inl (v, r', l') => inl (v, r', l' + k) | inr l => inr (l + k) end.
+
+Lemma bump_add : forall c line k, bump c (line + k) = bump c line + k.
+Proof. intros. unfold bump. destruct (Ascii.eqb c nl); reflexivity. Qed.
+Lemma scons_shs : forall x k r, scons x (shs k r) = shs k (scons x r).
+Proof. intros x k [[[v r] l]|l]; reflexivity. Qed.
+
+Lemma scan_shift : forall triple q k s line, scan triple q s (line + k) = shs k (scan triple q s line).
+Proof.
+  intros triple q k s. remember (length s) as n eqn:Hn. revert s Hn.
+  induction n as [n IHn] using lt_wf_ind; intros s Hn line.
+  destruct s as [|c s]; [reflexivity|].
+  assert (Hrec0 : forall s' l, length s' < n -> scan triple q s' (l + k) = shs k (scan triple q s' l)).
+  { intros s' l Hlt. eapply IHn; [exact Hlt|reflexivity]. }
+  assert (Hrec : forall x s' l, length s' < n ->
+            scons x (scan triple q s' (l + k)) = shs k (scons x (scan triple q s' l))).
+  { intros x s' l Hlt. rewrite Hrec0 by exact Hlt. apply scons_shs. }
+  cbn [scan]. rewrite bump_add. set (L := bump c line).
+  assert (Hl : length s < n) by (subst n; cbn [length]; lia).
+  destruct (Ascii.eqb c q).
+  - destruct triple; cbn [negb]; [|reflexivity].
+    destruct s as [|q1 [|q2 s']]; try (apply Hrec; exact Hl).
+    destruct (Ascii.eqb q1 q && Ascii.eqb q2 q); [reflexivity|apply Hrec; exact Hl].
+  - destruct (Ascii.eqb c bs); [|apply Hrec; exact Hl].
+    destruct s as [|d s']; [apply Hrec; exact Hl|].
+    assert (Hl' : length s' < n) by (cbn [length] in Hl; lia).
+    destruct (Ascii.eqb d bs); [apply Hrec; exact Hl'|].
+    destruct (Ascii.eqb d q); [rewrite bump_add; apply Hrec; exact Hl'|].
+    destruct (Ascii.eqb d nl); [|apply Hrec; exact Hl].
+    change (S (L + k)) with (S L + k). apply Hrec0; exact Hl'.
+Qed.
+
+Lemma quoted_word_shift : forall triple c body line k,
+  quoted_word triple c body (line + k) = sht k (quoted_word triple c body line).
+Proof.
+  intros. unfold quoted_word. rewrite scan_shift.
+  destruct (scan triple c body line) as [[[v r] l]|l]; reflexivity.
+Qed.
+
+Theorem nw_shift : forall σ k s ic line, nw σ ic s (line + k) = sht k (nw σ ic s line).
+Proof.
+  intros σ k s; induction s as [|c s IH]; intros ic line; [reflexivity|].
+  cbn [nw]. rewrite bump_add.
+  destruct ic; [apply IH|].
+  destruct (isspace c); [apply IH|].
+  match goal with |- (if ?b then _ else _) = _ => destruct b end; [apply IH|].
+  destruct (Ascii.eqb c dq || Ascii.eqb c sq).
+  - destruct s as [|q1 [|q2 s']]; try apply quoted_word_shift.
+    destruct (Ascii.eqb q1 c && Ascii.eqb q2 c); apply quoted_word_shift.
+  - match goal with |- (if ?b then _ else _) = _ => destruct b end; [|reflexivity].
+    destruct (take σ s); reflexivity.
+Qed.
+
+(* the lines a token reports are never before the start line *)
+Lemma nw_ge : forall σ ic s line w r l, nw σ ic s line = TWord w r l -> line <= wline w /\ line <= l.
+Proof.
+  intros σ ic s line w r l H. destruct (nw_lines _ _ _ _ _ _ _ H) as (pre & body & _ & Hw & Hl & _). lia.
+Qed.
+
+(* ---------- the off-region scanner *)
+Definition sh3 (k:nat) (x:str * nat * option nat) : str * nat * option nat :=
+  let '(r, l, fu) := x in (r, l + k, fu).
+Lemma after_followup_shift : forall s line k,
+  after_followup s (line + k) = (let '(r, l, b) := after_followup s line in (r, l + k, b)).
+Proof.
+  induction s as [|c s IH]; intros line k; [reflexivity|]. cbn [after_followup].
+  destruct (Ascii.eqb c nl); [reflexivity|]. destruct (isspace c); [apply IH|reflexivity].
+Qed.
+Lemma nlrun_shift : forall (kk:str -> nat -> str * nat * option nat) k,
+  (forall t ln, kk t (ln + k) = sh3 k (kk t ln)) ->
+  forall g t ln, nlrun kk g t (ln + k) = sh3 k (nlrun kk g t ln).
+Proof.
+  intros kk k Hk g; induction g as [|g IH]; intros t ln; [reflexivity|]. cbn [nlrun].
+  destruct t as [|c0 t1]; [reflexivity|]. destruct t1 as [|d t1']; [reflexivity|].
+  change (S (ln + k)) with (S ln + k).
+  destruct (Ascii.eqb d nl); [apply IH|].
+  destruct (negb (prefixb intro (d :: t1'))); [apply Hk|].
+  destruct (skip_nonspace (drop (length intro) (d :: t1'))) as [|c3 t3]; [reflexivity|].
+  destruct (skip_space (c3 :: t3)) as [|c4 t4]; [reflexivity|].
+  destruct (prefixb f_end (c4 :: t4)).
+  { rewrite after_followup_shift.
+    destruct (after_followup (drop (length f_end) (c4 :: t4)) (S ln)) as [[t5 ln5] ret].
+    destruct ret; [reflexivity|apply Hk]. }
+  destruct (prefixb f_on (c4 :: t4)); [|apply Hk].
+  rewrite after_followup_shift.
+  destruct (after_followup (drop (length f_on) (c4 :: t4)) (S ln)) as [[t5 ln5] ret].
+  destruct ret; [reflexivity|apply Hk].
+Qed.
+Lemma sfs_shift : forall k f s line, sfs f s (line + k) = sh3 k (sfs f s line).
+Proof.
+  intros k; induction f as [|f IH]; intros s line; [reflexivity|]. cbn [sfs].
+  destruct s as [|c r]; [reflexivity|].
+  destruct (negb (Ascii.eqb c nl)); [apply IH|]. apply nlrun_shift. exact IH.
+Qed.
+Lemma sfs_ge : forall f s line r l fu, sfs f s line = (r, l, fu) -> line <= l.
+Proof.
+  intros f s line r l fu H. pose proof (sfs_shift line f s 0) as Hs. cbn [Nat.add] in Hs. rewrite H in Hs.
+  destruct (sfs f s 0) as [[r0 l0] fu0]. cbn [sh3] in Hs. inversion Hs. lia.
+Qed.
+
+(* ---------- collect_assigned_words *)
+Definition shc (k:nat) (r:res (list word * str * nat)) : res (list word * str * nat) :=
+  match r with
+  | Ok (ws, s', l') => Ok (map (shw k) ws, s', l' + k)
+  | UErr kd t l => UErr kd t (l + k)
+  | Crash c => Crash c
+  end.
+
+Lemma caw_shift : forall k f s line hc last acc lead,
+  caw f s (line + k) hc (shw k last) (map (shw k) acc) (shw k lead)
+  = shc k (caw f s line hc last acc lead).
+Proof.
+  intros k; induction f as [|f IH]; intros s line hc last acc lead; [reflexivity|].
+  cbn [caw]. rewrite nw_shift.
+  assert (Hfin : forall s' l',
+    match map (shw k) acc with
+    | [] => E "MissingValue" (str_of_word (shw k lead)) (wline (shw k lead))
+    | _ :: _ => Ok (rev (map (shw k) acc), s', l' + k) end
+    = shc k match acc with
+            | [] => E "MissingValue" (str_of_word lead) (wline lead)
+            | _ :: _ => Ok (rev acc, s', l') end).
+  { intros s' l'. destruct acc as [|a acc']; [reflexivity|].
+    change (map (shw k) (a :: acc')) with (shw k a :: map (shw k) acc') at 1. cbv iota.
+    change (shw k a :: map (shw k) acc') with (map (shw k) (a :: acc')).
+    cbn [shc]. rewrite map_rev. reflexivity. }
+  destruct (nw s1 false s line) as [|w r l|l]; cbn [sht].
+  - apply Hfin.
+  - change (isq (shw k w)) with (isq w). change (weq (shw k last) [bs]) with (weq last [bs]).
+    change (is1 (shw k w) "{") with (is1 w "{"). change (is1 (shw k w) "}") with (is1 w "}").
+    change (is1 (shw k w) ";") with (is1 w ";"). change (is1 (shw k w) "#") with (is1 w "#").
+    change (is1 (shw k w) bs) with (is1 w bs).
+    cbn [wline shw].
+    replace (wline w + k =? wline last + k)%nat with (wline w =? wline last)%nat
+      by (destruct (Nat.eqb_spec (wline w) (wline last)); symmetry; [apply Nat.eqb_eq|apply Nat.eqb_neq]; lia).
+    destruct (negb hc && negb (isq w) && (is1 w "{" || is1 w "}" || is1 w ";" || is1 w "#")).
+    + destruct (is1 w ";"); [apply Hfin|].
+      destruct (negb (is1 w "#")); [apply Hfin|apply IH].
+    + destruct (isq w || weq last [bs]).
+      * destruct hc; [apply IH|apply (IH r l false w (w :: acc) lead)].
+      * destruct (negb (wline w =? wline last)%nat); [apply Hfin|].
+        destruct (hc || is1 w bs); [apply IH|apply (IH r l hc w (w :: acc) lead)].
+  - reflexivity.
+Qed.
+
+Lemma caw_ge : forall f s line hc last acc lead ws s' l',
+  caw f s line hc last acc lead = Ok (ws, s', l') -> line <= l'.
+Proof.
+  induction f as [|f IH]; intros s line hc last acc lead ws s' l' H; [discriminate|].
+  cbn [caw] in H.
+  destruct (nw s1 false s line) as [|w r l|l] eqn:En; [| |discriminate].
+  - destruct acc; [discriminate|]. inversion H; lia.
+  - destruct (nw_ge _ _ _ _ _ _ _ En) as [_ Hl].
+    assert (Hfin : forall (s2:str) l2, line <= l2 ->
+      match acc with [] => E "MissingValue" (str_of_word lead) (wline lead) | _ :: _ => Ok (rev acc, s2, l2) end
+      = Ok (ws, s', l') -> line <= l').
+    { intros s2 l2 Hle H'. destruct acc; [discriminate|]. inversion H'; subst; exact Hle. }
+    destruct (negb hc && negb (isq w) && (is1 w "{" || is1 w "}" || is1 w ";" || is1 w "#")).
+    + destruct (is1 w ";"); [eapply Hfin; [|exact H]; lia|].
+      destruct (negb (is1 w "#")); [eapply Hfin; [|exact H]; lia|]. apply IH in H. lia.
+    + destruct (isq w || weq last [bs]); [apply IH in H; lia|].
+      destruct (negb (wline w =? wline last)%nat); [eapply Hfin; [|exact H]; lia|]. apply IH in H. lia.
+Qed.
+
+(* ---------- trees modulo line numbers *)
+Definition ew (w:word) : word := mkword (wv w) (wq w) 0.
+Definition eh (h:hdr) : hdr := mkhdr (oname h) (odis h) (otmpl h) (omerge h) (opid h) 0.
+Fixpoint erase_lines (x:obj) : obj :=
+  match x with
+  | Def h ws a => Def (eh h) (map ew ws) a
+  | Scp h ks a => Scp (eh h) (map erase_lines ks) a
+  end.
+(* results modulo lines: the trees with lines erased; an error by kind and token *)
+Definition erase_res (r:res (list obj)) : res (list obj) :=
+  match r with Ok l => Ok (map erase_lines l) | UErr kd t _ => UErr kd t 0 | Crash c => Crash c end.
+
+Lemma ew_shw : forall k w, ew (shw k w) = ew w.
+Proof. reflexivity. Qed.
+Lemma map_ew_shw : forall k ws, map ew (map (shw k) ws) = map ew ws.
+Proof. intros. rewrite map_map. reflexivity. Qed.
+
+Lemma erase_attach : forall n v x, erase_lines (attach n v x) = attach n v (erase_lines x).
+Proof.
+  intros n v x; induction x as [h ws a|h ks a IH] using obj_ind2; [reflexivity|].
+  destruct ks as [|k [|k2 ks]]; try reflexivity.
+  inversion IH as [|? ? Hk _]; subst. cbn [attach erase_lines map]. rewrite Hk. reflexivity.
+Qed.
+Lemma erase_wrap : forall comps first x,
+  erase_lines (wrap_dotted first comps x) = wrap_dotted first comps (erase_lines x).
+Proof.
+  induction comps as [|c rest IH]; intros first x; [reflexivity|].
+  destruct rest as [|c2 rest].
+  - cbn [wrap_dotted]. destruct first; [reflexivity|]. destruct x; reflexivity.
+  - change (wrap_dotted first (c :: c2 :: rest) x)
+      with (Scp (mkhdr c false 0 (negb first) 0 0) [wrap_dotted false (c2 :: rest) x] []).
+    change (wrap_dotted first (c :: c2 :: rest) (erase_lines x))
+      with (Scp (mkhdr c false 0 (negb first) 0 0) [wrap_dotted false (c2 :: rest) (erase_lines x)] []).
+    cbn [erase_lines map]. rewrite IH. reflexivity.
+Qed.
+Lemma erase_adopt : forall x, erase_lines (adopt x) = adopt (erase_lines x).
+Proof.
+  intros x. unfold adopt. rewrite erase_wrap.
+  replace (oname (ohdr (erase_lines x))) with (oname (ohdr x)) by (destruct x; reflexivity). reflexivity.
+Qed.
+
+(* ---------- relating two results up to error lines *)
+Definition rrel {A B} (R:A -> B -> Prop) (r':res A) (r:res B) : Prop :=
+  match r', r with
+  | Ok a', Ok a => R a' a
+  | UErr kd' t' _, UErr kd t _ => kd' = kd /\ t' = t
+  | Crash c', Crash c => c' = c
+  | _, _ => False
+  end.
+Lemma rrel_bind : forall {A B C D} (R:A -> B -> Prop) (Q:C -> D -> Prop) r' r k' k,
+  rrel R r' r -> (forall a' a, R a' a -> rrel Q (k' a') (k a)) -> rrel Q (bind r' k') (bind r k).
+Proof.
+  intros A B C D R Q [a'|kd' t' l'|c'] [a|kd t l|c] k' k H Hk; cbn [rrel bind] in *; try contradiction; auto.
+Qed.
+Lemma rrel_E : forall {A B} (R:A -> B -> Prop) kind tok l' l, rrel R (E kind tok l') (E kind tok l).
+Proof. intros. split; reflexivity. Qed.
+Definition nl_res {A} (r:res A) : res A := match r with UErr kd t _ => UErr kd t 0 | r => r end.
+Lemma nl_rrel : forall {A} (r' r:res A), nl_res r' = nl_res r -> rrel eq r' r.
+Proof.
+  intros A [a'|kd' t' l'|c'] [a|kd t l|c] H; cbn [nl_res rrel] in *; try discriminate; inversion H; auto.
+Qed.
+
+(* ---------- attribute conversion looks at the words' texts and quoting only *)
+Lemma is_plain_ew : forall what ws, is_plain what (map ew ws) = is_plain what ws.
+Proof. intros what [|w [|w2 ws]]; reflexivity. Qed.
+Lemma map_wv_ew : forall ws, map wv (map ew ws) = map wv ws.
+Proof. intros. rewrite map_map. reflexivity. Qed.
+Lemma str_from_words_ew : forall ws, str_from_words (map ew ws) = str_from_words ws.
+Proof.
+  intros ws. unfold str_from_words, is_plain_none, is_plain_auto. rewrite !is_plain_ew, map_wv_ew. reflexivity.
+Qed.
+Lemma wkey_ew : forall ws, wkey (map ew ws) = wkey ws.
+Proof. intros ws. unfold wkey. induction ws as [|w ws IH]; [reflexivity|]. cbn [map flat_map]. rewrite IH. reflexivity. Qed.
+Lemma ask_ew : forall o kind ws, ask o kind (map ew ws) = ask o kind ws.
+Proof. intros. unfold ask. rewrite wkey_ew. reflexivity. Qed.
+Lemma bool_from_words_ew : forall ws, nl_res (bool_from_words (map ew ws)) = nl_res (bool_from_words ws).
+Proof.
+  intros ws. unfold bool_from_words. rewrite str_from_words_ew.
+  destruct (str_from_words ws); try reflexivity.
+  destruct (mems _ _); [reflexivity|]. destruct (mems _ _); [reflexivity|]. destruct ws; reflexivity.
+Qed.
+Lemma int_from_words_ew : forall o ws, nl_res (int_from_words o (map ew ws)) = nl_res (int_from_words o ws).
+Proof.
+  intros o ws. unfold int_from_words. rewrite str_from_words_ew.
+  destruct (str_from_words ws); try reflexivity.
+  destruct (_ || _); [reflexivity|]. destruct (eqs _ _); [reflexivity|]. destruct (eqs _ _); [reflexivity|].
+  destruct (plain_int s); [reflexivity|]. rewrite ask_ew. reflexivity.
+Qed.
+Lemma assign_def_attr_ew : forall o n ws,
+  nl_res (assign_def_attr o n (map ew ws)) = nl_res (assign_def_attr o n ws).
+Proof.
+  intros o n ws. unfold assign_def_attr.
+  destruct (_ || _); [apply bool_from_words_ew|].
+  destruct (eqs n _).
+  { unfold is_plain_none, is_plain_auto. rewrite !is_plain_ew, ask_ew. reflexivity. }
+  destruct (_ || _); [apply int_from_words_ew|]. rewrite str_from_words_ew. reflexivity.
+Qed.
+Lemma assign_scope_attr_ew : forall o n ws,
+  nl_res (assign_scope_attr o n (map ew ws)) = nl_res (assign_scope_attr o n ws).
+Proof.
+  intros o n ws. unfold assign_scope_attr.
+  destruct (mems n _); [apply bool_from_words_ew|].
+  destruct (eqs n _); [apply int_from_words_ew|].
+  destruct (eqs n _).
+  { unfold is_plain_none, is_plain_auto. rewrite !is_plain_ew, ask_ew. reflexivity. }
+  rewrite str_from_words_ew.
+  destruct (eqs n _); [|reflexivity].
+  destruct (str_from_words ws); try reflexivity.
+  destruct (count_specs s) as [[|[|n0]]|]; reflexivity.
+Qed.
+Lemma assign_def_attr_words : forall o n ws' ws, map ew ws' = map ew ws ->
+  rrel eq (assign_def_attr o n ws') (assign_def_attr o n ws).
+Proof.
+  intros o n ws' ws H. apply nl_rrel.
+  rewrite <- (assign_def_attr_ew o n ws'), <- (assign_def_attr_ew o n ws), H. reflexivity.
+Qed.
+Lemma assign_scope_attr_words : forall o n ws' ws, map ew ws' = map ew ws ->
+  rrel eq (assign_scope_attr o n ws') (assign_scope_attr o n ws).
+Proof.
+  intros o n ws' ws H. apply nl_rrel.
+  rewrite <- (assign_scope_attr_ew o n ws'), <- (assign_scope_attr_ew o n ws), H. reflexivity.
+Qed.
+
+(* ---------- the word readers.  The relations also record that lines never run backwards. *)
+Definition Rtok (k line:nat) (x' x:word * str * nat) : Prop :=
+  let '(w', r', l') := x' in let '(w, r, l) := x in
+  w' = shw k w /\ r' = r /\ l' = l + k /\ line <= wline w /\ line <= l.
+Lemma pop_ge : forall σ s line w r l, pop σ s line = Ok (w, r, l) -> line <= wline w /\ line <= l.
+Proof.
+  intros σ s line w r l H. unfold pop in H. destruct (nw σ false s line) eqn:En; try discriminate.
+  inversion H; subst. eapply nw_ge; exact En.
+Qed.
+Lemma pop_shift : forall k σ s line, rrel (Rtok k line) (pop σ s (line + k)) (pop σ s line).
+Proof.
+  intros. pose proof (pop_ge σ s line) as Hge. unfold pop in *. rewrite nw_shift.
+  destruct (nw σ false s line); cbn [sht]; try apply rrel_E.
+  cbn [rrel Rtok]. destruct (Hge _ _ _ eq_refl). auto.
+Qed.
+Lemma pop_unq_shift : forall k σ s line, rrel (Rtok k line) (pop_unq σ s (line + k)) (pop_unq σ s line).
+Proof.
+  intros. unfold pop_unq. pose proof (pop_shift k σ s line) as H.
+  destruct (pop σ s (line + k)) as [[[w' r'] l']| |], (pop σ s line) as [[[w r] l]| |];
+    cbn [rrel Rtok] in H; try contradiction; try exact H.
+  destruct H as (-> & -> & -> & H1 & H2). change (isq (shw k w)) with (isq w).
+  destruct (isq w); [apply rrel_E|cbn [rrel Rtok]; auto].
+Qed.
+Lemma expect_eq_shift : forall k w, rrel eq (expect_eq (shw k w)) (expect_eq w).
+Proof. intros. unfold expect_eq. cbn [shw wv]. destruct (eqs (wv w) ["="]); [reflexivity|apply rrel_E]. Qed.
+
+Definition Rcaw (k line:nat) (x' x:list word * str * nat) : Prop :=
+  let '(ws', r', l') := x' in let '(ws, r, l) := x in
+  ws' = map (shw k) ws /\ r' = r /\ l' = l + k /\ line <= l.
+Lemma caw_shift_rel : forall k f s line hc last acc lead,
+  rrel (Rcaw k line) (caw f s (line + k) hc (shw k last) (map (shw k) acc) (shw k lead))
+                     (caw f s line hc last acc lead).
+Proof.
+  intros. rewrite caw_shift. pose proof (caw_ge f s line hc last acc lead) as Hge.
+  destruct (caw f s line hc last acc lead) as [[[ws r] l]| |]; cbn [shc rrel Rcaw]; auto.
+  specialize (Hge _ _ _ eq_refl). auto.
+Qed.
+
+(* ---------- the scope-attribute loop *)
+Definition Rsat (k line:nat) (x' x:attrs * word * str * nat) : Prop :=
+  let '(a', bw', r', l') := x' in let '(a, bw, r, l) := x in
+  a' = a /\ bw' = shw k bw /\ r' = r /\ l' = l + k /\ line <= l.
+Lemma Rsat_mono : forall k line line2 x' x, line <= line2 -> Rsat k line2 x' x -> Rsat k line x' x.
+Proof. intros k line line2 [[[a' bw'] r'] l'] [[[a bw] r] l] Hle (H1 & H2 & H3 & H4 & H5). cbn [Rsat]. repeat split; try assumption. lia. Qed.
+Lemma rrel_mono : forall {A B} (R Q:A -> B -> Prop) r' r, (forall a' a, R a' a -> Q a' a) -> rrel R r' r -> rrel Q r' r.
+Proof. intros A B R Q [a'| |] [a| |] H Hr; cbn [rrel] in *; auto. Qed.
+
+Lemma sattrs_shift : forall o k f w s line acc,
+  rrel (Rsat k line) (sattrs o f (shw k w) s (line + k) acc) (sattrs o f w s line acc).
+Proof.
+  intros o k; induction f as [|f IH]; intros w s line acc; [reflexivity|].
+  cbn [sattrs]. cbn [shw wv wline].
+  destruct (eqs (wv w) ["{"]); [cbn [rrel Rsat]; repeat split; lia|].
+  destruct (strip_bang (wv w)) as [v dis].
+  destruct v as [|c an]; [apply rrel_E|].
+  destruct (Ascii.eqb c "." && mems an scope_attr_names); [|apply rrel_E].
+  eapply rrel_bind; [apply pop_unq_shift|].
+  intros [[eqw' r'] l'] [[eqw r] l] (-> & -> & -> & _ & Hl).
+  eapply rrel_bind; [apply expect_eq_shift|]. intros ? ? _.
+  eapply rrel_bind;
+    [apply (caw_shift_rel k (S (length r)) r l false (mkword (c :: an) QN (wline w)) [] (mkword (c :: an) QN (wline w)))|].
+  intros [[ws' r2'] l2'] [[ws r2] l2] (-> & -> & -> & Hl2).
+  eapply rrel_bind with (R := eq).
+  { destruct dis; [reflexivity|].
+    eapply rrel_bind; [apply assign_scope_attr_words; apply map_ew_shw|]. intros ? ? ->. reflexivity. }
+  intros ? acc' ->.
+  eapply rrel_bind; [apply pop_unq_shift|].
+  intros [[w2' r3'] l3'] [[w2 r3] l3] (-> & -> & -> & _ & Hl3).
+  eapply rrel_mono; [|apply IH]. intros x' x. apply Rsat_mono. lia.
+Qed.
+
+(* ---------- collect_objects *)
+Definition Rcobj (k line:nat) (x' x:list obj * str * nat * nat) : Prop :=
+  let '(objs', r', l', n') := x' in let '(objs, r, l, n) := x in
+  map erase_lines objs' = map erase_lines objs /\ r' = r /\ l' = l + k /\ n' = n /\ line <= l.
+Lemma Rcobj_mono : forall k line line2 x' x, line <= line2 -> Rcobj k line2 x' x -> Rcobj k line x' x.
+Proof. intros k line line2 [[[a' bw'] r'] l'] [[[a bw] r] l] Hle (H1 & H2 & H3 & H4 & H5). cbn [Rcobj]. repeat split; try assumption. lia. Qed.
+
+(* the line of the previous object is either shifted too, or lies before both positions
+   (the 0 a scope body starts with) *)
+Definition rel_prev (k line prev' prev:nat) : Prop := prev' = prev + k \/ (prev < line /\ prev' < line + k).
+Lemma rel_prev_test : forall k line prev' prev wl, rel_prev k line prev' prev -> line <= wl ->
+  (wl + k =? prev')%nat = (wl =? prev)%nat.
+Proof.
+  intros k line prev' prev wl [->|[H1 H2]] Hle.
+  - destruct (Nat.eqb_spec wl prev); [apply Nat.eqb_eq|apply Nat.eqb_neq]; lia.
+  - transitivity false; [apply Nat.eqb_neq|symmetry; apply Nat.eqb_neq]; lia.
+Qed.
+Lemma rel_prev_mono : forall k line line2 prev' prev, line <= line2 -> rel_prev k line prev' prev -> rel_prev k line2 prev' prev.
+Proof. intros k line line2 prev' prev Hle [H|[H1 H2]]; [left; exact H|right; lia]. Qed.
+
+Definition Rpos (k line:nat) (x' x:str * nat) : Prop :=
+  let '(r', l') := x' in let '(r, l) := x in r' = r /\ l' = l + k /\ line <= l.
+
+Lemma cobj_shift : forall o k f s line nid stop start' start prev' prev active' active acc' acc,
+  1 <= line -> rel_prev k line prev' prev ->
+  option_map ew start' = option_map ew start ->
+  option_map erase_lines active' = option_map erase_lines active ->
+  map erase_lines acc' = map erase_lines acc ->
+  rrel (Rcobj k line) (cobj o f s (line + k) nid stop start' prev' active' acc')
+                      (cobj o f s line nid stop start prev active acc).
+Proof.
+  intros o k; induction f as [|f IH];
+    intros s line nid stop start' start prev' prev active' active acc' acc Hline Hprev Hstart Hact Hacc; [reflexivity|].
+  cbn [cobj]. rewrite nw_shift.
+  change (match active' with Some d => d :: acc' | None => acc' end) with (flushed active' acc').
+  change (match active with Some d => d :: acc | None => acc end) with (flushed active acc).
+  assert (Hfl : map erase_lines (flushed active' acc') = map erase_lines (flushed active acc)).
+  { destruct active' as [a'|], active as [a|]; cbn [option_map] in Hact; try discriminate; cbn [flushed map].
+    - inversion Hact as [Ha]. rewrite Ha, Hacc. reflexivity.
+    - exact Hacc. }
+  set (nm' := match start' with
+              | None => E "MissingBrace" [] 0
+              | Some sw => E "NoMatchingBrace" (str_of_word sw) (wline sw) end : res (list obj * str * nat * nat)).
+  set (nm := match start with
+             | None => E "MissingBrace" [] 0
+             | Some sw => E "NoMatchingBrace" (str_of_word sw) (wline sw) end : res (list obj * str * nat * nat)).
+  assert (Hnm : rrel (Rcobj k line) nm' nm).
+  { unfold nm', nm. destruct start' as [sw'|], start as [sw|]; cbn [option_map] in Hstart; try discriminate.
+    - inversion Hstart as [[H1 H2]]. unfold str_of_word. rewrite H1, H2. apply rrel_E.
+    - apply rrel_E. }
+  assert (Hend : forall (r:str) l, line <= l ->
+            rrel (Rcobj k line) (Ok (rev (flushed active' acc'), r, l + k, nid)) (Ok (rev (flushed active acc), r, l, nid))).
+  { intros r l Hl. cbn [rrel Rcobj]. rewrite !map_rev, Hfl. auto. }
+  destruct (nw s0 false s line) as [|lead r l|l] eqn:En; cbn [sht].
+  - destruct stop; [exact Hnm|apply Hend; lia].
+  - destruct (nw_ge _ _ _ _ _ _ _ En) as [Hwl Hl].
+    change (isq (shw k lead)) with (isq lead). change (str_of_word (shw k lead)) with (str_of_word lead).
+    cbn [shw wv wline].
+    destruct (isq lead); [apply rrel_E|].
+    rewrite (rel_prev_test k line prev' prev (wline lead) Hprev Hwl).
+    destruct (eqs (wv lead) intro && negb (wline lead =? prev)%nat).
+    { eapply rrel_bind; [apply pop_unq_shift|].
+      intros [[w' r2'] l2'] [[w r2] l2] (-> & -> & -> & _ & Hl2). cbn [shw wv wline].
+      destruct (eqs (wv w) f_end); [destruct stop; [exact Hnm|apply Hend; lia]|].
+      destruct (eqs (wv w) f_on).
+      { eapply rrel_mono; [|apply IH; try assumption; [lia|eapply rel_prev_mono; [|exact Hprev]; lia]].
+        intros x' x. apply Rcobj_mono. lia. }
+      destruct (negb (eqs (wv w) f_off)); [apply rrel_E|].
+      rewrite sfs_shift. destruct (sfs (S (length r2)) r2 l2) as [[r3 l3] fu] eqn:Es. cbn [sh3].
+      pose proof (sfs_ge _ _ _ _ _ _ Es) as Hl3.
+      assert (Hrec : rrel (Rcobj k line) (cobj o f r3 (l3 + k) nid stop start' prev' active' acc')
+                                         (cobj o f r3 l3 nid stop start prev active acc)).
+      { eapply rrel_mono; [|apply IH; try assumption; [lia|eapply rel_prev_mono; [|exact Hprev]; lia]].
+        intros x' x. apply Rcobj_mono. lia. }
+      destruct fu as [[|n]|]; try exact Hrec.
+      destruct stop; [exact Hnm|apply Hend; lia]. }
+    destruct (stop && eqs (wv lead) ["}"]); [apply Hend; lia|].
+    destruct (eqs (wv lead) ["{"]); [apply rrel_E|].
+    destruct (strip_bang (wv lead)) as [lv dis].
+    eapply rrel_bind; [apply pop_shift|].
+    intros [[w' r2'] l2'] [[w r2] l2] (-> & -> & -> & _ & Hl2).
+    change (isq (shw k w)) with (isq w). cbn [shw wv wline].
+    destruct (negb (isq w) && (eqs (wv w) ["{"] || prefixb ["."] (wv w) || prefixb ["!"; "."] (wv w))).
+    { destruct (negb (is_ident lv)); [destruct (eqs lv [";"]); apply rrel_E|].
+      destruct (name_reserved_scp lv); [apply rrel_E|].
+      eapply rrel_bind; [apply (sattrs_shift o k (S (length r2)) w r2 l2 [])|].
+      intros [[[sa' bw'] r3'] l3'] [[[sa bw] r3] l3] (-> & -> & -> & -> & Hl3).
+      eapply rrel_bind.
+      { apply (IH r3 l3 (S nid) true (Some (shw k bw)) (Some bw) 0 0 None None [] []);
+          [lia|right; lia|reflexivity|reflexivity|reflexivity]. }
+      intros [[[kids' r4'] l4'] nid4'] [[[kids r4] l4] nid4] (Hk & -> & -> & -> & Hl4).
+      destruct (prefix_reserved lv); [apply rrel_E|].
+      eapply rrel_mono; [|apply IH; try assumption; [lia|left; reflexivity| ]].
+      { intros x' x. apply Rcobj_mono. lia. }
+      cbn [map]. rewrite Hfl, !erase_adopt. cbn [erase_lines]. rewrite Hk. reflexivity. }
+    destruct (negb (prefixb ["."] lv)).
+    { destruct (negb (is_ident lv)); [destruct (eqs lv [";"]); apply rrel_E|].
+      eapply rrel_bind with (R := Rpos k l).
+      { destruct (eqs lv include_w); [cbn [rrel Rpos]; auto|].
+        eapply rrel_bind; [apply pop_unq_shift|].
+        intros [[eqw' r5'] l5'] [[eqw r5] l5] (-> & -> & -> & _ & Hl5).
+        eapply rrel_bind; [apply expect_eq_shift|]. intros ? ? _. cbn [rrel Rpos]. auto. }
+      intros [r5' l5'] [r5 l5] (-> & -> & Hl5).
+      eapply rrel_bind;
+        [apply (caw_shift_rel k (S (length r5)) r5 l5 false (mkword lv QN (wline lead)) [] (mkword lv QN (wline lead)))|].
+      intros [[ws' r6'] l6'] [[ws r6] l6] (-> & -> & -> & Hl6).
+      destruct (name_reserved_def lv); [apply rrel_E|].
+      destruct (prefix_reserved lv); [apply rrel_E|].
+      eapply rrel_mono; [|apply IH; try assumption; [lia|left; reflexivity| ]].
+      { intros x' x. apply Rcobj_mono. lia. }
+      cbn [option_map]. rewrite !erase_adopt. cbn [erase_lines]. rewrite map_ew_shw. reflexivity. }
+    destruct active' as [ad'|], active as [ad|]; cbn [option_map] in Hact; try discriminate; [|apply rrel_E].
+    destruct (negb (mems (drop 1 lv) def_attr_names)); [apply rrel_E|].
+    eapply rrel_bind; [apply pop_unq_shift|].
+    intros [[eqw' r5'] l5'] [[eqw r5] l5] (-> & -> & -> & _ & Hl5).
+    eapply rrel_bind; [apply expect_eq_shift|]. intros ? ? _.
+    eapply rrel_bind;
+      [apply (caw_shift_rel k (S (length r5)) r5 l5 false (mkword lv QN (wline lead)) [] (mkword lv QN (wline lead)))|].
+    intros [[ws' r6'] l6'] [[ws r6] l6] (-> & -> & -> & Hl6).
+    eapply rrel_bind with (R := fun a' a => erase_lines a' = erase_lines a).
+    { destruct dis; [cbn [rrel]; inversion Hact; reflexivity|].
+      eapply rrel_bind; [apply assign_def_attr_words; apply map_ew_shw|]. intros ? av ->.
+      cbn [rrel]. rewrite !erase_attach. inversion Hact as [Ha]. rewrite Ha. reflexivity. }
+    intros ad2' ad2 Had2.
+    eapply rrel_mono; [|apply IH; try assumption; [lia|left; reflexivity| ]].
+    { intros x' x. apply Rcobj_mono. lia. }
+    cbn [option_map]. rewrite Had2. reflexivity.
+  - apply rrel_E.
+Qed.
